@@ -25,7 +25,8 @@ FILES = [("A:", "pyoda_time/time_zones/Tzdb.nzd"), ("B:", "tests/test_data/Tzdb2
 
 META = {
     "property": "C06",
-    "proof_modules": ["PyodaProofs.C06", "PyodaProofs.C06Source", "PyodaProofs.C06Validate", "PyodaProofs.C06Maps"],
+    "proof_modules": ["PyodaProofs.C06", "PyodaProofs.C06Source", "PyodaProofs.C06Validate", "PyodaProofs.C06Maps",
+                      "PyodaProofs.GenAgreeC14", "PyodaProofs.GenAgreeC14S", "PyodaProofs.GenAgreeC14V", "PyodaProofs.GenAgreeC14W"],
     "drivers": ["drv_c06"],
     "theorems": [
         "Pyoda.C06.ids_sorted", "Pyoda.C06.ids_perm", "Pyoda.C06.fixed_id_roundtrip", "Pyoda.C06.fixed_id_range",
@@ -35,8 +36,44 @@ META = {
         "Pyoda.C06.mem_primaryMapping", "Pyoda.C06.sourceValid_eq_strict", "Pyoda.C06.strict_imp_valid",
         "Pyoda.C06.exact_duplicate_accepted",
         "Pyoda.C06.windowsToTzdb_canonical", "Pyoda.C06.tzdbToWindows_entries", "Pyoda.C06.tzdbToWindows_direct",
+        # agreement of the definitions generated from the Python source (tools/py2lean.py) with the model
+        "Pyoda.GenAgree.C14.gen_Reader_ctor_eq", "Pyoda.GenAgree.C14.gen_Reader_readByte_eq",
+        "Pyoda.GenAgree.C14.gen_Reader_hasMoreData_eq", "Pyoda.GenAgree.C14.gen_Reader_readInt16_eq",
+        "Pyoda.GenAgree.C14.gen_Reader_readInt32_eq", "Pyoda.GenAgree.C14.gen_Reader_readInt64_eq",
+        "Pyoda.GenAgree.C14.gen_Reader_readVarint_loop1_eq", "Pyoda.GenAgree.C14.gen_Reader_readVarint_eq",
+        "Pyoda.GenAgree.C14.gen_Reader_readCount_eq", "Pyoda.GenAgree.C14.gen_Reader_readSignedCount_eq",
+        "Pyoda.GenAgree.C14.gen_Reader_readMilliseconds_eq", "Pyoda.GenAgree.C14.gen_Reader_readOffset_eq",
+        "Pyoda.GenAgree.C14.gen_Reader_readTransitionNone_eq", "Pyoda.GenAgree.C14.gen_Reader_readTransitionSome_eq",
+        "Pyoda.GenAgree.C14.gen_Reader_readString_loop1_eq", "Pyoda.GenAgree.C14.gen_Reader_readString_eq",
+        "Pyoda.GenAgree.C14.gen_Reader_readDictionary_loop1_eq", "Pyoda.GenAgree.C14.gen_Reader_readDictionary_eq",
+        "Pyoda.GenAgree.C14.gen_YearOffset_read_eq", "Pyoda.GenAgree.C14.gen_Recurrence_read_eq",
+        "Pyoda.GenAgree.C14.gen_MapZone_ctor_eq", "Pyoda.GenAgree.C14.gen_MapZone_read_loop1_eq",
+        "Pyoda.GenAgree.C14.gen_MapZone_read_eq", "Pyoda.GenAgree.C14.gen_ZoneLocation_read_eq",
+        "Pyoda.GenAgree.C14.gen_WindowsZones_read_loop1_eq", "Pyoda.GenAgree.C14.gen_WindowsZones_read_eq",
+        "Pyoda.GenAgree.C14.gen_Zone1970Location_read_loop1_eq", "Pyoda.GenAgree.C14.gen_Zone1970Location_read_eq",
+        "Pyoda.GenAgree.C14S.gen_Field_ctor_eq", "Pyoda.GenAgree.C14S.gen_Field_getId_eq",
+        "Pyoda.GenAgree.C14S.gen_readFields_step", "Pyoda.GenAgree.C14S.gen_Field_readFieldsNext_loop1_eq",
+        "Pyoda.GenAgree.C14S.gen_Field_readFieldsNext_eq",
+        "Pyoda.GenAgree.C14V.gen_Validate_canonAndPrimary_loop1_eq",
+        "Pyoda.GenAgree.C14V.gen_Validate_canonAndPrimary_loop2_eq",
+        "Pyoda.GenAgree.C14V.gen_Validate_canonAndPrimary_eq", "Pyoda.GenAgree.C14V.gen_Validate_locations_loop1_eq",
+        "Pyoda.GenAgree.C14V.gen_Validate_locations_eq", "Pyoda.GenAgree.C14V.gen_Validate_locationsNone_eq",
+        "Pyoda.GenAgree.C14V.gen_Validate_locations1970_loop1_eq",
+        "Pyoda.GenAgree.C14V.gen_Validate_locations1970_eq", "Pyoda.GenAgree.C14V.gen_Validate_locations1970None_eq",
+        "Pyoda.GenAgree.C14V.gen_Validate_tzdbIds_loop2_eq", "Pyoda.GenAgree.C14V.gen_Validate_tzdbIds_loop1_eq",
+        "Pyoda.GenAgree.C14V.gen_Validate_tzdbIds_eq", "Pyoda.GenAgree.C14W.gen_Writer_ctor_eq",
+        "Pyoda.GenAgree.C14W.gen_Writer_writeByte_eq", "Pyoda.GenAgree.C14W.gen_Writer_writeVarint_loop1_eq",
+        "Pyoda.GenAgree.C14W.gen_Writer_writeVarint_eq", "Pyoda.GenAgree.C14W.gen_Writer_writeVarint_neg",
+        "Pyoda.GenAgree.C14W.gen_Writer_writeCount_eq", "Pyoda.GenAgree.C14W.gen_Writer_writeSignedCount_eq",
+        "Pyoda.GenAgree.C14W.gen_Writer_writeInt16_eq", "Pyoda.GenAgree.C14W.gen_Writer_writeInt32_eq",
+        "Pyoda.GenAgree.C14W.gen_Writer_writeInt64_eq", "Pyoda.GenAgree.C14W.gen_Writer_writeMilliseconds_eq",
+        "Pyoda.GenAgree.C14W.gen_Writer_writeOffset_eq", "Pyoda.GenAgree.C14W.gen_Writer_writeString_eq",
+        "Pyoda.GenAgree.C14W.gen_checkNotNullDict_eq", "Pyoda.GenAgree.C14W.gen_Writer_writeDictionary_loop1_eq",
+        "Pyoda.GenAgree.C14W.gen_Writer_writeDictionary_eq", "Pyoda.GenAgree.C14W.gen_Writer_writeTransitionNone_eq",
+        "Pyoda.GenAgree.C14W.gen_Writer_writeTransitionSome_eq",
     ],
     "trusted_base": [
+        "translator tie shared with C14 (tools/py2lean.py; GenAgreeC14 / C14S / C14W): the reader and writer primitives, the field framing step, and the payload readers that read themselves from a reader object — _ZoneYearOffset.read, _ZoneRecurrence.read (= the Session machines readYearOffsetM / readRecurrenceM), MapZone._read (= readMapZoneX) and TzdbZoneLocation._read with its `except ValueError -> InvalidPyodaDataError` (= readZoneLocationX) — are re-translated from the source on every run and proved equal to the codec model this property's theorems are about. TzdbDateTimeZoneSource.validate() is tied in slices (GenAgreeC14V): the runs of its top-level statements that are the model's groups 1-2 (canonClosed, hasPrimary), 3 (idsOK, the nested loops with the mapped_tzdb_ids set), 5 and 6 (locsOK; for 6 under the constructor's invariant that a 1970 location has a country — otherwise the error message's countries[0] raises IndexError first) are translated as procedures of their own and proved to return normally iff the model's Boolean holds. WindowsZones._read and TzdbZone1970Location._read are tied too (gen_WindowsZones_read_eq, gen_Zone1970Location_read_eq). Outside the tie (correspondence only): group 4 of validate() (_to_lookup, set comprehension, next()/StopIteration, any(generator)), the two derived-map builders (dict comprehensions, sorted, walrus truthiness), the precalculated-zone and alternating-map readers, _FixedDateTimeZone id making / parsing (text engine)",
         "the model reader (PyodaModel/Codec/*) is the independent interpretation of the file format; C14 proves it inverse to the documented writer on the primitives",
         "equality of decoded data and of behaviour is established by exhaustive comparison over both real files (every id, every period, every tail rule field; every MapZone, location and 1970 location record, the version strings, both derived Windows maps; behaviour at every period boundary and sampled tail years), not by a theorem",
         "sourceValid / firstFailure are evaluated on the decoded files by the compiled driver (Lean compiler and runtime trusted for that evaluation; sourceValid_iff is kernel-checked)",
